@@ -62,6 +62,8 @@ pub struct ElfInfo {
     /// executable sections (relocated addr, file offset, size)
     pub text: Vec<(u64, u64, u64)>,
     pub symbols: Vec<(String, u64, u64)>,
+    /// data objects (name, relocated address, size)
+    pub data_symbols: Vec<(String, u64, u64)>,
 }
 
 pub fn elf_info(exe: &str) -> Result<ElfInfo, String> {
@@ -71,6 +73,7 @@ pub fn elf_info(exe: &str) -> Result<ElfInfo, String> {
     let base = if pie { PIE_BASE } else { 0 };
     let mut main = 0;
     let mut symbols = vec![];
+    let mut data_symbols = vec![];
     for s in f.symbols() {
         if let Ok(n) = s.name() {
             if n == "main" {
@@ -78,6 +81,9 @@ pub fn elf_info(exe: &str) -> Result<ElfInfo, String> {
             }
             if s.kind() == object::SymbolKind::Text && s.size() > 0 {
                 symbols.push((n.to_string(), s.address() + base, s.size()));
+            }
+            if s.kind() == object::SymbolKind::Data && s.size() > 0 {
+                data_symbols.push((n.to_string(), s.address() + base, s.size()));
             }
         }
     }
@@ -99,7 +105,7 @@ pub fn elf_info(exe: &str) -> Result<ElfInfo, String> {
             }
         }
     }
-    Ok(ElfInfo { pie, base, main, entry: f.entry() + base, regions, text, symbols })
+    Ok(ElfInfo { pie, base, main, entry: f.entry() + base, regions, text, symbols, data_symbols })
 }
 
 pub fn hash_regs(r: &libc::user_regs_struct) -> u64 {
